@@ -62,8 +62,9 @@ type variant struct {
 	rf       uint32
 	syncData bool
 	dup      bool
-	mute     int // number of followers that never acknowledge (must leave a quorum)
-	perW     int // writes per writer
+	mute     int  // number of followers that never acknowledge (must leave a quorum)
+	perW     int  // writes per writer
+	cancel   bool // writer 0's context is cancelled by another thread while its write is in flight
 }
 
 type wres struct {
@@ -119,12 +120,20 @@ func body(v variant) func(s *vsched.Sched) {
 		s.Explore(true)
 		n := v.writers * v.perW
 		results := make([]wres, n)
+		cctx, ccancel := context.WithCancel(context.Background())
+		if v.cancel {
+			vsched.Go(func() { ccancel() })
+		}
 		for w := 0; w < v.writers; w++ {
 			w := w
 			vsched.Go(func() {
 				for j := 0; j < v.perW; j++ {
 					i := w*v.perW + j
-					resp, err := lc.WriteBlock(context.Background(), &proto.WriteRequest{Shard: oxh.I64(1),
+					ctx := context.Background()
+					if v.cancel && w == 0 {
+						ctx = cctx
+					}
+					resp, err := lc.WriteBlock(ctx, &proto.WriteRequest{Shard: oxh.I64(1),
 						Puts: []*proto.PutRequest{{Key: fmt.Sprintf("k%d", i), Value: []byte(fmt.Sprintf("v%d", i))}}})
 					results[i] = wres{done: true, err: err, resp: resp}
 				}
@@ -141,6 +150,9 @@ func body(v variant) func(s *vsched.Sched) {
 			case !r.done:
 				s.Fail("write-wedged", fmt.Sprintf("write %d never completed although a quorum of followers is healthy; blocked: %s", i, strings.Join(s.Blocked(), "; ")))
 				outcome = append(outcome, "hang")
+			case r.err != nil && v.cancel && i < v.perW:
+				// the caller gave up: an error is a legitimate answer (the entry may still commit)
+				outcome = append(outcome, "cancelled")
 			case r.err != nil:
 				s.Fail("write-failed", fmt.Sprintf("write %d failed: %v", i, r.err))
 				outcome = append(outcome, "err")
@@ -195,6 +207,15 @@ func body(v variant) func(s *vsched.Sched) {
 				_ = rd.Close()
 			}
 		}
+		if v.cancel {
+			// every committed entry must be applied on the leader, whoever stopped waiting for it
+			_, appended2, _ := wal.VerifPeekOffsets(w)
+			db := server.VerifLeaderDB(lc)
+			dbCommit, _ := db.ReadCommitOffset()
+			if commit == appended2 && dbCommit != commit {
+				s.Fail("committed-entry-not-applied", fmt.Sprintf("commit offset is %d but the leader's database has only applied up to %d", commit, dbCommit))
+			}
+		}
 		// effects applied in offset order, exactly once
 		for _, seq := range kvf.CommitSequences() {
 			if msg := oxc.CheckSequential(seq, -1); msg != "" {
@@ -229,20 +250,22 @@ func scenarios(tier string) []sched.Scenario {
 		}{v, dev})
 	}
 	if tier == "thorough" {
-		add(variant{"rf3-2writers-sync", 2, 3, true, false, 0, 1}, 3)
-		add(variant{"rf3-2writers-nosync", 2, 3, false, false, 0, 1}, 3)
-		add(variant{"rf3-1live-follower-sync", 2, 3, true, false, 1, 1}, 3)
-		add(variant{"rf3-dupacks-sync", 2, 3, true, true, 0, 1}, 2)
-		add(variant{"rf5-2writers-sync", 2, 5, true, false, 0, 1}, 2)
-		add(variant{"rf5-2mute-sync", 2, 5, true, false, 2, 1}, 2)
-		add(variant{"rf3-3writers-sync", 3, 3, true, false, 0, 1}, 2)
-		add(variant{"rf3-2x2writes-sync", 2, 3, true, false, 0, 2}, 2)
+		add(variant{"rf3-2writers-sync", 2, 3, true, false, 0, 1, false}, 3)
+		add(variant{"rf3-2writers-nosync", 2, 3, false, false, 0, 1, false}, 3)
+		add(variant{"rf3-1live-follower-sync", 2, 3, true, false, 1, 1, false}, 3)
+		add(variant{"rf3-dupacks-sync", 2, 3, true, true, 0, 1, false}, 2)
+		add(variant{"rf5-2writers-sync", 2, 5, true, false, 0, 1, false}, 2)
+		add(variant{"rf5-2mute-sync", 2, 5, true, false, 2, 1, false}, 2)
+		add(variant{"rf3-3writers-sync", 3, 3, true, false, 0, 1, false}, 2)
+		add(variant{"rf3-2x2writes-sync", 2, 3, true, false, 0, 2, false}, 2)
+		add(variant{name: "rf3-2writers-one-cancelled", writers: 2, rf: 3, syncData: true, perW: 1, cancel: true}, 3)
 	} else {
-		add(variant{"rf3-2writers-sync", 2, 3, true, false, 0, 1}, 2)
-		add(variant{"rf3-2writers-nosync", 2, 3, false, false, 0, 1}, 2)
-		add(variant{"rf3-1live-follower-sync", 2, 3, true, false, 1, 1}, 2)
-		add(variant{"rf5-2mute-sync", 2, 5, true, false, 2, 1}, 1)
-		add(variant{"rf3-3writers-sync", 3, 3, true, false, 0, 1}, 1)
+		add(variant{"rf3-2writers-sync", 2, 3, true, false, 0, 1, false}, 2)
+		add(variant{"rf3-2writers-nosync", 2, 3, false, false, 0, 1, false}, 2)
+		add(variant{"rf3-1live-follower-sync", 2, 3, true, false, 1, 1, false}, 2)
+		add(variant{"rf5-2mute-sync", 2, 5, true, false, 2, 1, false}, 1)
+		add(variant{"rf3-3writers-sync", 3, 3, true, false, 0, 1, false}, 1)
+		add(variant{name: "rf3-2writers-one-cancelled", writers: 2, rf: 3, syncData: true, perW: 1, cancel: true}, 2)
 	}
 	var out []sched.Scenario
 	for _, x := range vs {
